@@ -48,7 +48,17 @@ def run(ctx, replay):
         for _ in range(4 + k % 6):
             t = [{"kind": "group", "env": [], "kids": t}]
         deep.append(dict(c, tree=t))
-    cases = cases + deep
+    # ... and under pipeline envs with more names than the model's A, B (backend-style names, lower case, a leading underscore): every
+    # unshadowed pipeline variable is signed, whatever it is called
+    more = {"BUILDKITE_GIT_CLEAN_FLAGS": "-ffxdq", "BUILDKITE_PLUGINS_ENABLED": "true", "CI": "true", "buildkite_lower": "l", "_UNDERSCORE": "u", "PATH": "/bin"}
+    named = []
+    for k, c in enumerate(rnd.sample(cases, min(len(cases), 1200 if thorough else 400))):
+        pe = dict(c["penv"]) if isinstance(c["penv"], dict) else {}
+        names = sorted(more)
+        for j in range(1 + k % len(names)):
+            pe[names[(k + j) % len(names)]] = more[names[(k + j) % len(names)]]
+        named.append(dict(c, penv=pe))
+    cases = cases + deep + named
     traces, sums = vlib.drive_cases(ctx, "c06", cases, nchunks=16)
     n, bad = vlib.judge(ctx, "Trace_SignSteps", traces)
     vlib.report_bad(ctx, bad, sig, desc,
@@ -62,7 +72,7 @@ def run(ctx, replay):
         "distinct_nontrivial": sum(1 for c in cases if c["tree"]),
         "rule": "every step tree with <= MaxNodes nodes over {command (step env {} or {A}), wait, input, trigger, unknown, group} nested to "
                 "MaxDepth, x pipeline env in {{}, {A}, {A,B}}; key kind rotates over EdDSA, ES512, PS512, ES256 signer. Quick replays a seeded "
-                "sample of 6000 of the trees TLC enumerated, thorough all (and one more node); 500 (1500) of them are also run under a chain of 4..9 nested groups. Decorations by the case: empty / shadowing step env "
+                "sample of 6000 of the trees TLC enumerated, thorough all (and one more node); 500 (1500) of them are also run under a chain of 4..9 nested groups, 400 (1200) under pipeline envs with further names (BUILDKITE_*, CI, lower case, leading underscore). Decorations by the case: empty / shadowing step env "
                 "values, step-only names, stale signatures (own, or ONE object shared by several steps), empty plugin lists / matrices, leftover "
                 "keys, groups without a label. Non-trivial = non-empty tree.",
         "exhaustive": thorough,
